@@ -42,7 +42,7 @@ type chainPlan struct {
 	salt  uint32
 }
 
-var breakRules = []string{"pow", "bits", "median-time", "version", "future-time"}
+var breakRules = []string{"pow", "bits", "median-time", "version", "future-time", "bits-noclamp"}
 
 // pickRule draws a rule that the header at the given height can break under
 // the run's parameters (a version below the floor is a violation only from the
@@ -207,6 +207,16 @@ func runHeaders(t *testing.T, rc *core.RunCtx) {
 		if !adopt && tp.Chance(2, 5) {
 			breakAt = 1 + tp.Intn(l)
 			rule = w.pickRule(int32(at + breakAt))
+			if rule == "bits-noclamp" && !params.PoWNoRetargeting {
+				// the limits only matter on the first header of a period
+				bpr := int(chainmodel.BlocksPerRetarget(params))
+				for j := 1; j <= l; j++ {
+					if (at+j)%bpr == 0 {
+						breakAt = j
+						break
+					}
+				}
+			}
 		}
 		fsp := spacing
 		if tp.Chance(1, 2) {
@@ -319,6 +329,13 @@ func runHeaders(t *testing.T, rc *core.RunCtx) {
 		case k < 72: // announces a tainted extension of whatever it has: valid prefix, then a bad header
 			l := 1 + tp.Intn(4)
 			rule := w.pickRule(p.view.Height + int32(l))
+			if !params.PoWNoRetargeting && tp.Chance(1, 3) {
+				// a whole fast period ending in a first-of-period header
+				// whose difficulty ignores the retarget limits
+				bpr := int(chainmodel.BlocksPerRetarget(params))
+				l = bpr - int(p.view.Height)%bpr
+				rule = "bits-noclamp"
+			}
 			bad := w.mineChain(p.view, l, time.Minute, time.Now().Add(-10*time.Second), l, rule, &plan.salt, 0)
 			tips = append(tips, bad)
 			if l > 1 {
